@@ -291,19 +291,30 @@ def St.flush (s : St) (c : Cache) : St :=
 /-- `get_amount_apr_bounded(supply)`: per-block bound `⌊⌊supply·maxApr/10000⌋/blocksPerYear⌋` -/
 def aprPerBlock (supply maxApr : Nat) : Nat := supply * maxApr / MAX_PERCENT / BLOCKS_IN_YEAR
 
-/-- `mint_per_block_rewards`: `min(perBlock·Δ, aprBound·Δ)` with `Δ = block − last`, 0 when no
-    block has passed; the unbounded amount is 0 while production is off.  Reads the STORED supply. -/
-def mintAmount (s : St) : Nat :=
-  if s.block ≤ s.lastBlock then 0
+/-- `mint_per_block_rewards` as a function of the cells it reads: `min(perBlock·Δ, aprBound·Δ)`
+    with `Δ = block − last`, 0 when no block has passed; the unbounded amount is 0 while
+    production is off. -/
+def mintOf (block lastBlock perBlock : Nat) (produce : Bool) (supply maxApr : Nat) : Nat :=
+  if block ≤ lastBlock then 0
   else
-    min (if s.produce then s.perBlock * (s.block - s.lastBlock) else 0)
-        (aprPerBlock s.supply s.maxApr * (s.block - s.lastBlock))
+    min (if produce then perBlock * (block - lastBlock) else 0)
+        (aprPerBlock supply maxApr * (block - lastBlock))
 
-/-- the total reward of `generate_aggregated_rewards`: additionally capped by `capacity − accumulated` -/
-def genTot (s : St) : Nat := min (mintAmount s) (s.capacity - s.accumulated)
+/-- `mint_per_block_rewards` (reads the STORED supply) -/
+def mintAmount (s : St) : Nat := mintOf s.block s.lastBlock s.perBlock s.produce s.supply s.maxApr
+
+/-- the total reward of `generate_aggregated_rewards` as a function of the cells it reads:
+    additionally capped by `capacity − accumulated` -/
+def genTotOf (block lastBlock perBlock : Nat) (produce : Bool) (supply maxApr capacity accumulated : Nat) : Nat :=
+  min (mintOf block lastBlock perBlock produce supply maxApr) (capacity - accumulated)
+
+def genTot (s : St) : Nat :=
+  genTotOf s.block s.lastBlock s.perBlock s.produce s.supply s.maxApr s.capacity s.accumulated
 
 /-- `take_reward_slice`: the boosted cut `⌊tot·pct/10000⌋` -/
-def genCut (s : St) (tot : Nat) : Nat := tot * s.boostedPct / MAX_PERCENT
+def cutOf (pct tot : Nat) : Nat := tot * pct / MAX_PERCENT
+
+def genCut (s : St) (tot : Nat) : Nat := cutOf s.boostedPct tot
 
 /-- the index increment `⌊base·dsc/supply⌋`, none at zero (cached) supply -/
 def rpsInc (dsc base supply : Nat) : Nat := if supply = 0 then 0 else base * dsc / supply
@@ -444,9 +455,7 @@ def stakeProxy (s : St) (caller orig amount : Nat) (adds : List Pay) : Option (S
     `user` as owner. -/
 def stakeOnBehalf (s : St) (caller user amount : Nat) (adds : List Pay) : Option (St × Out) := do
   req ((user, caller) ∈ s.hub)
-  match adds with
-    | [] => pure ()
-    | _ => allOwnedBy s.md user adds
+  allOwnedBy s.md user adds
   stakeCore s caller user amount false adds
 
 /-! ### claim (claim_stake_farm_rewards.rs, claim_rewards.rs) -/
@@ -562,9 +571,7 @@ def clearEnergyIfNeeded (s : St) (g : Weekly.St) (orig : Nat) : Option Weekly.St
     Out = (unbond nonce, unbond amount, reward). -/
 def unstakeCore (s : St) (caller orig : Nat) (pay : Pay) (proxyAmt : Option Nat) :
     Option (St × Out) := do
-  match proxyAmt with
-    | some x => req (0 < x)
-    | none => pure ()
+  req (proxyAmt ≠ some 0)
   let hold0 ← debit s.hold caller [pay]
   req (s.active = true)
   let attrs ← posOf s.md pay.1
@@ -646,9 +653,7 @@ def mergeTokens (s : St) (caller : Nat) (pays : List Pay) : Option (St × Out) :
     The payout is subtracted from the CACHED reserve (repo commit adb7e0d; before it the
     subtraction was a direct storage write that the cache overwrote — finding F1). -/
 def claimBoostedRewards (s : St) (caller : Nat) (user : Option Nat) : Option (St × Out) := do
-  match user with
-    | some u => req (u = caller)
-    | none => pure ()
+  req (user = none ∨ user = some caller)
   req (s.userTotal caller ≠ 0)
   req (s.active = true)
   let g ← generate s s.cache
@@ -837,10 +842,14 @@ def stepCore (s : St) : Op → Option (St × Out)
       pure ({ s with hub := s.hub.erase (u, a) }, {})
   | .advance b e => some ({ s with block := s.block + b, epoch := s.epoch + e }, {})
 
-def step (s : St) (op : Op) : Option (St × Out) := do
+/-- the sender of a user operation is one of the world's accounts -/
+def callerOk (s : St) (op : Op) : Bool :=
   match op.caller with
-    | some c => req (c ∈ s.accts)
-    | none => pure ()
+  | some c => decide (c ∈ s.accts)
+  | none => true
+
+def step (s : St) (op : Op) : Option (St × Out) := do
+  req (callerOk s op = true)
   stepCore s op
 
 /-- the state after a history: failed transactions leave the state unchanged -/
